@@ -16,7 +16,7 @@ tier: B
 backend: cadical
 unwind: 8
 unwind_thorough: 12
-bound: list length <= 4, any key
+bound: list length <= 4, any key [thorough tier: lengths up to 5]
 funcs: spif_linked_list_append
 */
 /*@unit
@@ -27,7 +27,7 @@ tier: B
 backend: cadical
 unwind: 8
 unwind_thorough: 12
-bound: list length <= 4, any key
+bound: list length <= 4, any key [thorough tier: lengths up to 5]
 funcs: spif_linked_list_prepend
 */
 /*@unit
@@ -38,7 +38,7 @@ tier: B
 backend: cadical
 unwind: 8
 unwind_thorough: 12
-bound: list length 1..4; every index value from -2^31 up to len+2 (at most 2 placeholders of growth) except idx == -len-1; any key
+bound: list length 1..4; every index value from -2^31 up to len+2 (at most 2 placeholders of growth) except idx == -len-1; any key [thorough tier: lengths up to 5]
 funcs: spif_linked_list_insert_at
 */
 /*@unit
@@ -71,7 +71,7 @@ tier: B
 backend: cadical
 unwind: 8
 unwind_thorough: 12
-bound: list length <= 4; idx == -len-1 (the position that normalises to exactly -1); any key
+bound: list length <= 4; idx == -len-1 (the position that normalises to exactly -1); any key [thorough tier: lengths up to 5]
 funcs: spif_linked_list_insert_at
 */
 /*@unit
@@ -82,7 +82,7 @@ tier: B
 backend: cadical
 unwind: 8
 unwind_thorough: 12
-bound: list length <= 4, all 2^32 index values
+bound: list length <= 4, all 2^32 index values [thorough tier: lengths up to 5]
 funcs: spif_linked_list_remove_at
 */
 /*@unit
@@ -93,7 +93,7 @@ tier: B
 backend: cadical
 unwind: 8
 unwind_thorough: 12
-bound: list length <= 4, all 2^32 index values
+bound: list length <= 4, all 2^32 index values [thorough tier: lengths up to 5]
 funcs: spif_linked_list_get
 */
 /*@unit
@@ -104,7 +104,7 @@ tier: B
 backend: cadical
 unwind: 8
 unwind_thorough: 12
-bound: list length <= 4, all key values incl. duplicates and placeholders
+bound: list length <= 4, all key values incl. duplicates and placeholders [thorough tier: lengths up to 5]
 funcs: spif_linked_list_remove
 */
 /*@unit
@@ -115,7 +115,7 @@ tier: B
 backend: cadical
 unwind: 8
 unwind_thorough: 12
-bound: list length <= 4, all key values incl. duplicates and placeholders
+bound: list length <= 4, all key values incl. duplicates and placeholders [thorough tier: lengths up to 5]
 funcs: spif_linked_list_index, spif_linked_list_find, spif_linked_list_contains
 */
 /*@unit
@@ -126,7 +126,7 @@ tier: B
 backend: cadical
 unwind: 8
 unwind_thorough: 12
-bound: list length 1..4
+bound: list length 1..4 [thorough tier: lengths up to 5]
 funcs: spif_linked_list_reverse
 */
 /*@unit
@@ -148,7 +148,7 @@ tier: B
 backend: cadical
 unwind: 8
 unwind_thorough: 12
-bound: list length <= 4
+bound: list length <= 4 [thorough tier: lengths up to 5]
 funcs: spif_linked_list_to_array
 */
 /*@unit
@@ -159,7 +159,7 @@ tier: B
 backend: cadical
 unwind: 8
 unwind_thorough: 12
-bound: list length <= 4
+bound: list length <= 4 [thorough tier: lengths up to 5]
 funcs: spif_linked_list_iterator, spif_linked_list_iterator_new, spif_linked_list_iterator_init, spif_linked_list_iterator_has_next, spif_linked_list_iterator_next, spif_linked_list_iterator_del
 */
 #include "vprelude.h"
